@@ -43,6 +43,9 @@ FIXED = [
     "fixed: property=C15 b2d189c two calls of a function declaring a Memory shared one cell (same commit as the C16 entry)",
     "fixed: property=C13 463dbab implicit signals were allocated from a pool that did not exclude the signals the program uses explicitly (`Signal a = (\"signal-A\", 5); Signal b = 7;` put both on signal-A)",
     "fixed: property=C20 008479a with optimisation on, a top-level name whose node CSE merged with an earlier identical value (`Signal n1 = f(x, 8);` after `Signal n0 = f(x, 8);`) got no output anchor",
+    "fixed: property=C08 1fb17bb with --power-poles small the grid poles (wire reach 7.5) were used as circuit relays with 9-tile hops: circuit wires longer than the pole's reach",
+    "fixed: property=C08 4d9d4b8 explicit memory/latch module wires (write gate -> hold gate, latch -> multiplier, remappers) were never relay-routed and exceeded the 9-tile reach under sprawling layouts",
+    "fixed: property=C09 51a4d64 a non-square user entity placed with direction east/west was emitted off the tile grid, one tile away from the requested tile",
     "fixed: property=C01 7701d37 a comparison with an integer literal on the left (`3 < a`) was emitted as `signal-0 < a`",
 ]
 
@@ -157,6 +160,30 @@ add("C20", K1, K1_WHAT, "K1",
                ["sig", "n2", ["p", ["b", "-", ["v", "n0"], ["v", "i1"]], "signal-hourglass"]]],
               "mixed_names", nval=2), kinds={"i0": "input", "i1": "input", "i3": "input", "n0": "sel", "n2": "arith"},
          optimize=True))
+
+
+def witness(name):
+    import os
+
+    with open(os.path.join(os.path.dirname(os.path.dirname(os.path.abspath(__file__))), "witnesses", name + ".json")) as f:
+        return json.load(f)
+
+
+# ---- C18
+add("C18", "C18-pre-layout-pole-grid-leaves-consumers-unpowered",
+    "with --power-poles T some electricity consumers lie outside every supply area: the pole grid is laid out "
+    "before the layout from an entity-count estimate (spacing 2 x configured supply radius, big poles configured "
+    "with radius 5 while the game's is 2), grid positions on occupied tiles are skipped and unused poles are "
+    "trimmed by centre distance",
+    "PowerPlanner.add_power_pole_grid / LayoutPlanner._trim_power_poles; clause: an electric entity's collision box "
+    "intersects no supply square (circuit, user entities, copper reach and pole-free clauses all hold)",
+    witness("C18-pre-layout-pole-grid-leaves-consumers-unpowered"))
+add("C18", "C18-pole-grid-not-one-electric-network",
+    "the poles of a --power-poles build do not form one electric network: relay poles inserted for circuit routing "
+    "and grid poles next to trimmed or skipped grid positions are out of copper reach of the rest",
+    "BlueprintEmitter._materialize_power_grid / _connect_pole_to_nearest connect each pole only to its nearest "
+    "neighbours within reach; clause: more than one copper component over all electric poles",
+    witness("C18-pole-grid-not-one-electric-network"))
 
 
 def main():
